@@ -178,11 +178,16 @@ func genCallbacks(outDir string) (string, error) {
 	sites, regKinds := cbInvocationSites(files, typ, funcs, mutexes)
 	nResp, nRes := 0, 0
 	asyncOrUnlocked, notUnderRegistry := true, true
+	respOwn := true
 	var siteStrs, underLock []string
 	for _, st := range sites {
 		siteStrs = append(siteStrs, strconv.Quote(st.String()))
 		if st.kind == "response" {
 			nResp++
+			if !st.own {
+				respOwn = false
+				note("response callbacks are invoked in %s by a goroutine that serves several of them in a loop (or by the delivering goroutine): a callback that does not return holds up the callbacks after it", st.via)
+			}
 		} else {
 			nRes++
 		}
@@ -254,6 +259,8 @@ func genCallbacks(outDir string) (string, error) {
 	sb.WriteString("def invokedUnderLock : List String := [" + strings.Join(underLock, ", ") + "]\n")
 	sb.WriteString("/-- every invocation of a registered callback happens in a spawned goroutine OR with no mutex of the struct held -/\n")
 	sb.WriteString("def invocationsAsyncOrUnlocked : Bool := " + b2(asyncOrUnlocked) + "\n")
+	sb.WriteString("/-- every invocation of a registered RESPONSE callback is performed by a goroutine of its own (a `go` statement on the\n    callback, or a spawned function that reaches the invocation outside every loop): the callbacks waiting for one counter\n    are independent of each other -/\n")
+	sb.WriteString("def responseCallbacksOwnGoroutine : Bool := " + b2(respOwn) + "\n")
 	sb.WriteString("/-- no callback is invoked directly while the mutex of the registration section is held -/\n")
 	sb.WriteString("def noInvocationUnderRegistryMutex : Bool := " + b2(notUnderRegistry) + "\n")
 	sb.WriteString("def notes : List String := [" + strings.Join(qn, ", ") + "]\n\n")
